@@ -9,9 +9,9 @@ from props import C20 as S
 
 PROP = "C10"
 META = {
-    "technique": "Coq proof: monotone state machine + counting invariants (close accounting, table, notifications) over all schedules of an access-granular model of Close/close/halfClose and the callback goroutine's exit path, lifted to two ends joined by FIFO inboxes; tie: real session pairs driven through generated close scenarios (T) and the real instrumented stream.go under a controlled scheduler compared access by access with the model (S)",
-    "level_text": "C10_monotone, C10_callbacks_at_most_once, C10_final_flush, C10_peer hold for every schedule, any number of concurrent/repeated Close calls, either mode. The full statement C10_full (closed, out of the table, exactly one close callback, peer told) is refuted: C10_refuted (Close inside OnData) and C10_sync_refuted (close() loses its state CAS against the peer's close notification) by vm_compute witnesses that are replayed on the real code; C10_partial / C10_propagates_partial prove the full statement, on one end and across both ends, for runs in which every Close found callbackInProcess=0 and no close() lost its CAS.",
-    "level_note": "Trusted: coqc kernel; sequential consistency; go/verisched; the session stays open (Session.Close is C14's); one FIFO transport (C07 owns queue/socket re-ordering); T scenarios are sampled real runs with generous time bounds, S schedules are sampled (random, sticky, systematic single pre-emption) plus the two deterministic witness schedules.",
+    "technique": "Coq proof: monotone state machine + counting invariants (close accounting, table, notifications, 'whoever must finish the close is still there') over all schedules of an access-granular model of Close/close/halfClose and the callback goroutine's exit path, lifted to two ends joined by FIFO inboxes; tie: real session pairs driven through generated close scenarios (T) and the real instrumented stream.go under a controlled scheduler compared access by access with the model (S)",
+    "level_text": "C10_monotone, C10_callbacks_at_most_once, C10_final_flush, C10_peer and the full statement C10_full (at quiescence after a returned Close(): closed, out of the table, exactly one close callback, peer told unless it told us) hold for every schedule, any number of concurrent/repeated Close calls from any goroutine (inside OnData, while OnData runs, racing the peer's close notification), either mode; C10_propagates lifts it to both ends. The three former refutations (Close inside OnData, Close while OnData runs, close() losing its state CAS) were repaired in stream.go and are regression scenarios/examples. One forced hypothesis remains (callbacks installed before the run or SetCallbacks not racing Close: C10_setcallbacks_race_refuted, a two-instruction window).",
+    "level_note": "Known finding kept: data in flight to a stream the server already closed re-creates the stream id (session.getStream; protocol-level). Trusted: coqc kernel; sequential consistency; go/verisched; the session stays open (Session.Close is C14's); one FIFO transport (C07 owns queue/socket re-ordering); T scenarios are sampled real runs with generous time bounds, S schedules are sampled (random, sticky, systematic single pre-emption) plus the deterministic former-witness schedules.",
 }
 
 SIG_INSIDE = "C10:Close-inside-OnData-no-peer-notification-no-OnLocalClose"
